@@ -1,4 +1,7 @@
-use super::{Namespace, TryFromNode, doc::RustDocument};
+use super::{
+    Namespace, TryFromNode,
+    doc::{ComponentKind, RustDocument},
+};
 use crate::{
     error::{WriterError, WriterResult},
     reader::WriteXml,
@@ -97,7 +100,9 @@ impl<'n> TryFromNode<'n> for Field {
                     .cloned(),
             };
 
-            let ref_node = doc.find_node_by_xml_name(&node, xml_name, namespace.as_deref());
+            // an element reference points to a global element, never to a type of the same name
+            let kind = (node.tag_name().name() == "element").then_some(ComponentKind::Element);
+            let ref_node = doc.find_node_by_xml_name(&node, xml_name, namespace.as_deref(), kind);
             let ref_node = ref_node
                 .as_ref()
                 .ok_or_else(|| WriterError::NodeNotFound(ref_name.to_string()))?;
